@@ -659,56 +659,9 @@ func cmdExec(args []string) error {
 	var sb strings.Builder
 	for i := 0; i < c.n; i++ {
 		rr := r.Fork()
-		fork := forks[rr.Intn(len(forks))]
-		curFork = fork
-		fi := impl.ForkIndex(fork)
-		cs := exCase{Idx: i, Fork: fork, Entry: rr.Intn(6), JP: rr.Intn(5) != 0, Debug: true, AspLog: rr.Intn(4) != 0, Gas: 3_000_000, Codes: map[string]string{}}
-		if rr.Intn(2) == 0 {
-			cs.Entry = 0
-		}
-		if cs.Entry == 5 && fi < 5 {
-			cs.Entry = 4
-		}
-		if (cs.Entry == 0 || cs.Entry == 1 || cs.Entry >= 4) && rr.Intn(3) == 0 {
-			cs.Value = uint64(1 + rr.Intn(50))
-		}
-		if rr.Intn(6) == 0 {
-			cs.Gas = uint64(2000 + rr.Intn(60000))
-		}
-		if rr.Intn(3) != 0 {
-			cs.Input = fmt.Sprintf("%x", rr.Bytes(1+rr.Intn(40)))
-		}
-		w := &world{Code: map[common.Address][]byte{}, Storage: map[common.Address]map[common.Hash]common.Hash{},
-			Balance: map[common.Address]*big.Int{}, Nonce: map[common.Address]uint64{}}
-		opts := progen.Opts{Fork: fi, MaxSnips: 10, Cancun: fork == "Cancun", Journal: true, SmallMem: true}
-		for k, a := range u.Contracts {
-			code := progen.Program(rr, u, opts)
-			if k > 0 && rr.Intn(8) == 0 {
-				code = nil
-			}
-			w.Code[a] = code
-			cs.Codes[a.Hex()] = fmt.Sprintf("%x", code)
-			w.Balance[a] = big.NewInt(int64(rr.Intn(3)) * 1000)
-			w.Storage[a] = map[common.Hash]common.Hash{}
-			for s := 0; s < 4; s++ {
-				if rr.Bool() {
-					w.Storage[a][common.BigToHash(big.NewInt(int64(s)))] = common.BigToHash(big.NewInt(int64(1 + rr.Intn(3))))
-				}
-			}
-		}
-		w.Balance[u.EOA] = big.NewInt(12345)
-		w.Balance[exCaller] = big.NewInt(1_000_000)
-		if rr.Intn(12) == 0 {
-			w.Balance[exCaller] = big.NewInt(3)
-		}
-		w.Nonce[exCaller] = uint64(rr.Intn(3))
-		code0 := w.Code[u.Contracts[0]]
-		if cs.Entry >= 4 {
-			code0 = progen.Program(rr, u, progen.Opts{Fork: fi, MaxSnips: 6, Journal: true, SmallMem: true})
-			cs.Codes["init"] = fmt.Sprintf("%x", code0)
-		}
-		cs.Bindings, cs.Aspects = genBindings(rr, u)
-
+		cs, w, code0 := genExecCase(rr, u, forks)
+		cs.Idx = i
+		fork := cs.Fork
 		run := runScenario(&cs, w, u, code0, true)
 		if run.pan != "" {
 			cs.Oracle = append(cs.Oracle, "Go panic: "+run.pan)
@@ -776,6 +729,61 @@ func cmdExec(args []string) error {
 		return err
 	}
 	return writeJSON(c.out, "stats.json", stats)
+}
+
+// genExecCase draws one scenario: configuration, pre-state, codes, Aspect bindings and behaviours.
+func genExecCase(rr *rng.R, u progen.Universe, forks []string) (exCase, *world, []byte) {
+	fork := forks[rr.Intn(len(forks))]
+	curFork = fork
+	fi := impl.ForkIndex(fork)
+	cs := exCase{Fork: fork, Entry: rr.Intn(6), JP: rr.Intn(5) != 0, Debug: true, AspLog: rr.Intn(4) != 0, Gas: 3_000_000, Codes: map[string]string{}}
+	if rr.Intn(2) == 0 {
+		cs.Entry = 0
+	}
+	if cs.Entry == 5 && fi < 5 {
+		cs.Entry = 4
+	}
+	if (cs.Entry == 0 || cs.Entry == 1 || cs.Entry >= 4) && rr.Intn(3) == 0 {
+		cs.Value = uint64(1 + rr.Intn(50))
+	}
+	if rr.Intn(6) == 0 {
+		cs.Gas = uint64(2000 + rr.Intn(60000))
+	}
+	if rr.Intn(3) != 0 {
+		cs.Input = fmt.Sprintf("%x", rr.Bytes(1+rr.Intn(40)))
+	}
+	w := &world{Code: map[common.Address][]byte{}, Storage: map[common.Address]map[common.Hash]common.Hash{},
+		Balance: map[common.Address]*big.Int{}, Nonce: map[common.Address]uint64{}}
+	opts := progen.Opts{Fork: fi, MaxSnips: 10, Cancun: fork == "Cancun", Journal: true, SmallMem: true}
+	for k, a := range u.Contracts {
+		code := progen.Program(rr, u, opts)
+		if k > 0 && rr.Intn(8) == 0 {
+			code = nil
+		}
+		w.Code[a] = code
+		cs.Codes[a.Hex()] = fmt.Sprintf("%x", code)
+		w.Balance[a] = big.NewInt(int64(rr.Intn(3)) * 1000)
+		w.Storage[a] = map[common.Hash]common.Hash{}
+		for s := 0; s < 4; s++ {
+			if rr.Bool() {
+				w.Storage[a][common.BigToHash(big.NewInt(int64(s)))] = common.BigToHash(big.NewInt(int64(1 + rr.Intn(3))))
+			}
+		}
+	}
+	w.Balance[u.EOA] = big.NewInt(12345)
+	w.Balance[exCaller] = big.NewInt(1_000_000)
+	if rr.Intn(12) == 0 {
+		w.Balance[exCaller] = big.NewInt(3)
+	}
+	w.Nonce[exCaller] = uint64(rr.Intn(3))
+	code0 := w.Code[u.Contracts[0]]
+	if cs.Entry >= 4 {
+		code0 = progen.Program(rr, u, progen.Opts{Fork: fi, MaxSnips: 6, Journal: true, SmallMem: true})
+		cs.Codes["init"] = fmt.Sprintf("%x", code0)
+	}
+	cs.Bindings, cs.Aspects = genBindings(rr, u)
+
+	return cs, w, code0
 }
 
 func buildExecLine(cs *exCase, run *exRun, w *world, u progen.Universe, code0 []byte, debug bool) (string, string) {
